@@ -57,9 +57,9 @@ type PRule struct {
 }
 
 type PRes struct {
-	CPU     int64 `json:"cpu"`
-	Memory  int64 `json:"memory"`
-	Storage int64 `json:"storage"`
+	CPU     Quantity `json:"cpu"`
+	Memory  Quantity `json:"memory"`
+	Storage Quantity `json:"storage"`
 }
 
 type PContainer struct {
@@ -245,15 +245,15 @@ func polPorts(in []netv1.NetworkPolicyPort) []PPort {
 }
 
 func res(l corev1.ResourceList) PRes {
-	out := PRes{CPU: -1, Memory: -1, Storage: -1}
+	out := PRes{CPU: unsetQuantity, Memory: unsetQuantity, Storage: unsetQuantity}
 	if q, ok := l[corev1.ResourceCPU]; ok {
-		out.CPU = q.MilliValue()
+		out.CPU = quantity(q.MilliValue())
 	}
 	if q, ok := l[corev1.ResourceMemory]; ok {
-		out.Memory = q.Value()
+		out.Memory = quantity(q.Value())
 	}
 	if q, ok := l[corev1.ResourceEphemeralStorage]; ok {
-		out.Storage = q.Value()
+		out.Storage = quantity(q.Value())
 	}
 	return out
 }
